@@ -104,7 +104,7 @@ def direct_instances(ctx):
         inst = md.make_instance(rng, kind=kind, ncols=0)
         inst["tag"] = "empty"
         insts.append(inst)
-    for _ in range(ctx.n(1200, 20000)):
+    for _ in range(ctx.n(1200, 15000)):
         inst = md.make_instance(rng)
         inst["tag"] = "rnd"
         insts.append(inst)
@@ -460,7 +460,7 @@ def run(ctx):
     if l2_bad:
         search_direct(ctx)
         searched = True
-    specs = [md.make_cli_spec(ctx.rng) for _ in range(ctx.n(150, 2000))]
+    specs = [md.make_cli_spec(ctx.rng) for _ in range(ctx.n(150, 1500))]
     ctx.log(f"cli: {len(specs)} runs")
     runs = cli_runs(ctx, specs)
     ctx.log(f"cli: implementation done ({time.time() - t0:.0f}s)")
